@@ -53,7 +53,10 @@ def _det_controller():
                 n = type(v.vehicle_state).__name__
                 if k % 5 == 0 and n == "Idle" and ss:
                     s = sim.stations[ss[k % len(ss)]]
-                    out.append(I.DispatchStationInstruction(v.id, s.id, sorted(s.state.keys())[0]))
+                    mech = env.mechatronics.get(v.mechatronics_id)
+                    plugs = [c for c in sorted(s.state.keys()) if mech is not None and mech.valid_charger(s.state[c].charger)]
+                    if plugs:  # only plugs the vehicle can use (see the shortest_time_to_charge exclusion in DESIGN)
+                        out.append(I.DispatchStationInstruction(v.id, s.id, plugs[0]))
                 elif k % 7 == 3 and n in ("ChargingStation", "ChargeQueueing", "ReserveBase"):
                     out.append(I.IdleInstruction(v.id))
                 elif k % 11 == 4 and n == "Idle" and bs:
